@@ -227,7 +227,10 @@ func (n *Namespace) add(c *serverConn, auth json.RawMessage) (*serverSocket, err
 	return socket, n.doConnect(socket)
 }
 
-var errConnectionClosed = fmt.Errorf("sio: connection was closed while the socket was connecting to the namespace")
+var (
+	errConnectionClosed            = fmt.Errorf("sio: connection was closed while the socket was connecting to the namespace")
+	errAlreadyConnectedToNamespace = fmt.Errorf("sio: the connection is already connected to the namespace")
+)
 
 func (n *Namespace) doConnect(socket *serverSocket) error {
 	// The connection may have been closed while the middlewares were running. A socket admitted after
@@ -238,6 +241,12 @@ func (n *Namespace) doConnect(socket *serverSocket) error {
 	defer socket.conn.closedMu.Unlock()
 	if socket.conn.closed {
 		return errConnectionClosed
+	}
+	// Packets are handled on their own goroutines, so two CONNECT packets for this namespace can both
+	// get here before either socket is registered. A connection has one socket per namespace: the second
+	// socket would replace the first one on the connection, and the first one would never be closed.
+	if _, ok := socket.conn.sockets.getByNsp(n.name); ok {
+		return errAlreadyConnectedToNamespace
 	}
 
 	n.sockets.set(socket)
